@@ -90,7 +90,7 @@ sub vcl_miss {
 }
 sub vcl_fetch {
 #FASTLY fetch
-  set beresp.ttl = 60s;
+  set beresp.ttl = 3600s;
   set beresp.http.X-Fetched-For = req.http.X-Marker;
   if (req.url ~ "^/esi") {
     esi;
